@@ -24,6 +24,7 @@ type Obligation struct {
 }
 
 type Check struct {
+	failMemo  map[*Func][]Fact
 	typesMemo map[string]*Func
 	P         *Prog
 	Prop      string
